@@ -9,10 +9,13 @@ mod c04;
 mod c03;
 mod c05;
 mod c07;
+mod c08;
 mod c10;
 mod c11;
 mod c12;
+mod c13;
 mod c14;
+mod c15;
 mod c16;
 mod c17;
 mod c18;
@@ -33,6 +36,7 @@ mod c32;
 mod c33;
 mod c34;
 mod c35;
+mod c36;
 mod c37;
 mod c38;
 mod c40;
@@ -44,7 +48,6 @@ mod c46;
 mod c47;
 mod c49;
 mod c50;
-mod c36;
 
 pub fn run(item: &str, repo: &str, out: &str) -> Result<String, String> {
     let handlers: &[fn(&str, &str, &str) -> Option<Result<String, String>>] = &[
@@ -54,10 +57,13 @@ pub fn run(item: &str, repo: &str, out: &str) -> Result<String, String> {
         c03::run,
         c05::run,
         c07::run,
+        c08::run,
         c10::run,
         c11::run,
         c12::run,
+        c13::run,
         c14::run,
+        c15::run,
         c16::run,
         c17::run,
         c18::run,
@@ -78,6 +84,7 @@ pub fn run(item: &str, repo: &str, out: &str) -> Result<String, String> {
         c33::run,
         c34::run,
         c35::run,
+        c36::run,
         c37::run,
         c38::run,
         c40::run,
@@ -89,7 +96,6 @@ pub fn run(item: &str, repo: &str, out: &str) -> Result<String, String> {
         c47::run,
         c49::run,
         c50::run,
-        c36::run,
     ];
     for h in handlers {
         if let Some(r) = h(item, repo, out) {
